@@ -275,10 +275,63 @@ func runC15Nodes(c *Ctx) {
 			break
 		}
 	}
+	// ---------------- A': Acceptor.SetCookie after start ------------------------------------------------
+	runC15AcceptorSet(c, reg)
 	// ---------------- B: spawn / application start end to end ----------------------------------------
 	runC15Requests(c, reg)
 	// ---------------- C: Join findings on a live node ---------------------------------------------------
 	runC15LiveJoin(c, reg)
+}
+
+// runC15AcceptorSet: the acceptor's cookie changed at run time through gen.Acceptor.SetCookie. The model
+// (CookieSel.startAcc/setCookie/handshakeCookie) says the running accept loop keeps the cookie it was started with;
+// the property wants the cookie set last. Listed finding D10b: the witness is replayed on every run.
+func runC15AcceptorSet(c *Ctx, reg *memReg) {
+	r := c.R
+	y, port, err := startNetNode(reg, nodeSpec{cookie: "n1"})
+	if err != nil {
+		r.Count("nodes.inconclusive")
+		return
+	}
+	defer y.StopForce()
+	x, _, err := startNetNode(reg, nodeSpec{cookie: "zz"})
+	if err != nil {
+		r.Count("nodes.inconclusive")
+		return
+	}
+	defer x.StopForce()
+	accs, err := y.Network().Acceptors()
+	if err != nil || len(accs) == 0 {
+		r.Count("nodes.inconclusive")
+		return
+	}
+	accs[0].SetCookie("a1")
+	reported := accs[0].Cookie()
+	yInfo, _ := y.Network().Info()
+	try := func(cookie string) bool {
+		route := gen.NetworkRoute{Route: gen.Route{Host: "localhost", Port: port, HandshakeVersion: yInfo.HandshakeVersion, ProtoVersion: yInfo.ProtoVersion}, Cookie: cookie}
+		rn, err := x.Network().GetNodeWithRoute(y.Name(), route)
+		if err != nil {
+			return false
+		}
+		rn.Disconnect()
+		waitGone(x, y.Name())
+		waitGone(y, x.Name())
+		return true
+	}
+	withNew, withOld := try("a1"), try("n1")
+	r.Case("nodes-acceptor-setcookie", true)
+	r.Count(fmt.Sprintf("nodes.setcookie.reported-%s.new-%v.old-%v", reported, withNew, withOld))
+	// model: started with (node 1, option 0), SetCookie 3: handshake cookie stays 1, Cookie() reports 3
+	if reported != "a1" || withNew != false || withOld != true {
+		if withNew && !withOld {
+			r.Note("Acceptor.SetCookie is effective on this tree: the model (accept loop snapshot) and finding D10b are out of date")
+		}
+		r.Disagree("c15-nodes-setcookie", fmt.Sprintf("model (CookieSel.handshakeCookie): SetCookie does not reach the accept loop; implementation: Cookie()=%q, connect with new cookie=%v, with old cookie=%v", reported, withNew, withOld), nil)
+	}
+	if !withNew || withOld {
+		r.Violation("C15/acceptor-setcookie-ignored", fmt.Sprintf("after Acceptor.SetCookie(\"a1\") on an acceptor started with the node cookie \"n1\": Cookie() reports %q, a peer presenting \"a1\" connected=%v, a peer presenting \"n1\" connected=%v", reported, withNew, withOld), nil)
+	}
 }
 
 func flags3(f gen.NetworkFlags) string {
